@@ -41,9 +41,12 @@ impl Parameters {
         let docs = YamlLoader::load_from_str(&contents).map_err(
             |e| ParameterError::ParseError(e.to_string()))?;
 
-        let doc = &docs[0];
+        let doc = docs.get(0).ok_or_else(
+            || ParameterError::ParseError("The file contains no YAML document".into()))?;
         let params = &doc["opw_kinematics_geometric_parameters"];
-        let dof = params["dof"].as_i64().unwrap_or(6) as i8;
+        // The 'dof' entry is accepted both inside the geometric parameters and at the top level
+        // (where Parameters::to_yaml writes it).
+        let dof = params["dof"].as_i64().or_else(|| doc["dof"].as_i64()).unwrap_or(6) as i8;
         let mut sign_corrections = Self::read_sign_corrections(&doc["opw_kinematics_joint_sign_corrections"])?;
         if dof == 5 {
             // Block J6 at 0 by default for 5DOF robot.
@@ -51,19 +54,25 @@ impl Parameters {
         }
 
         Ok(Parameters {
-            a1: params["a1"].as_f64().ok_or_else(|| ParameterError::MissingField("a1".into()))?,
-            a2: params["a2"].as_f64().ok_or_else(|| ParameterError::MissingField("a2".into()))?,
-            b: params["b"].as_f64().ok_or_else(|| ParameterError::MissingField("b".into()))?,
-            c1: params["c1"].as_f64().ok_or_else(|| ParameterError::MissingField("c1".into()))?,
-            c2: params["c2"].as_f64().ok_or_else(|| ParameterError::MissingField("c2".into()))?,
-            c3: params["c3"].as_f64().ok_or_else(|| ParameterError::MissingField("c3".into()))?,
-            c4: params["c4"].as_f64().ok_or_else(|| ParameterError::MissingField("c4".into()))?,
+            a1: Self::read_number(&params["a1"]).ok_or_else(|| ParameterError::MissingField("a1".into()))?,
+            a2: Self::read_number(&params["a2"]).ok_or_else(|| ParameterError::MissingField("a2".into()))?,
+            b: Self::read_number(&params["b"]).ok_or_else(|| ParameterError::MissingField("b".into()))?,
+            c1: Self::read_number(&params["c1"]).ok_or_else(|| ParameterError::MissingField("c1".into()))?,
+            c2: Self::read_number(&params["c2"]).ok_or_else(|| ParameterError::MissingField("c2".into()))?,
+            c3: Self::read_number(&params["c3"]).ok_or_else(|| ParameterError::MissingField("c3".into()))?,
+            c4: Self::read_number(&params["c4"]).ok_or_else(|| ParameterError::MissingField("c4".into()))?,
             dof: dof,
             offsets: Self::read_offsets(&doc["opw_kinematics_joint_offsets"])?,
             sign_corrections: sign_corrections,
         })
     }
 
+
+    /// Numbers like 0 or 1 are parsed by YAML as integers (this is also how Parameters::to_yaml
+    /// writes the value like 1.0), they are as valid as the values with the decimal point.
+    fn read_number(value: &Yaml) -> Option<f64> {
+        value.as_f64().or_else(|| value.as_i64().map(|v| v as f64))
+    }
 
     fn read_sign_corrections(doc: &Yaml) -> Result<[i8; 6], ParameterError> {
         // Store the temporary vector in a variable for longer lifetime
